@@ -322,7 +322,8 @@ static void s_parse_authority(struct uri_parser *parser, struct aws_byte_cursor 
         return;
     } else {
         const uint8_t *end = str->ptr + str->len;
-        if (location_of_slash) {
+        /* the authority ends at the first '/' or '?' (RFC-3986 section 3.2); a '/' behind the '?' belongs to the query */
+        if (location_of_slash && (!location_of_qmark || location_of_slash < location_of_qmark)) {
             parser->state = ON_PATH;
             end = location_of_slash;
         } else if (location_of_qmark) {
